@@ -72,7 +72,7 @@ def main():
         fired, details = [], {}
         for c in m["checks"]:
             pid = c["property_id"]
-            rc, o = run([os.path.join(VERIF, "bin", "corscheck"), "-repo", wt, "-verif", vd, "-property", pid])
+            rc, o = run([os.environ.get("CORSCHECK_BIN", os.path.join(VERIF, "bin", "corscheck")), "-repo", wt, "-verif", vd, "-property", pid])
             if rc != 0:
                 fired.append(pid)
                 details[pid] = [l.strip()[:400] for l in o.splitlines() if " FAIL " in l][:3]
